@@ -141,6 +141,9 @@ func (fc *FnCtx) lookupVarBefore(name string, at *ssa.BasicBlock, cur ssa.Instru
 			if !ok || id.Name != name {
 				continue
 			}
+			if v, isVar := d.Object().(*types.Var); isVar && v.IsField() {
+				continue // a field name (key of a composite literal), not a variable
+			}
 			if _, ok := fc.vals[d.X]; !ok {
 				if _, isConst := d.X.(*ssa.Const); !isConst {
 					continue
@@ -245,6 +248,19 @@ func (fc *FnCtx) evalIdent(x *ast.Ident, env *Env) Val {
 		return boolV("false")
 	case "nil":
 		return Val{K: KInt, S: "0", T: types.Typ[types.UntypedNil]}
+	}
+	if env.loop != nil && fc.frameParent != nil && fc.loopSpecBase >= 0 {
+		// an invariant of the function under contract, evaluated at a loop that was moved into
+		// this (inlined) helper: names of the function under contract come first
+		root := fc.root()
+		if v, ok := root.params[x.Name]; ok {
+			return v
+		}
+		if fc.callBlock != nil {
+			if v, ok := root.lookupVarBefore(x.Name, fc.callBlock, fc.callSite, env.state()); ok {
+				return v
+			}
+		}
 	}
 	if v, ok := env.vars[x.Name]; ok {
 		return v
